@@ -484,7 +484,7 @@ def impl_consolidate(case):
         if d is not None:
             which = "attribute dict" if (d["argument_no"] >= len(objs)
                                          or isinstance(objs[d["argument_no"]], dict)) else "non-dict"
-            msgs.append(("%s altered a %s argument of the caller (the non-dict arguments come back "
+            msgs.append(("%s altered one of the caller's %s arguments (the non-dict arguments come back "
                          "unchanged; the same arguments must build the same tag again)" % (after_what, which), d))
             return False
         return True
